@@ -47,8 +47,8 @@ CLAIMS = {
         "transmit_frame translated from source to FP64 and decided for all finite doubles (admission formula; load "
         "after accounting stays in [0,bw] with nested admitted traffic).",
         "note": "Bounds: 2 top-level sends with nested replies to depth 2 (quick); FakeFrame instead of Frame (size "
-        "comes from pydantic-core's serializer); AirSpace/wireless channel accounting is read but only covered in the "
-        "thorough tier. Trusted: CrossHair/z3, py2smt translator (validated against the real Link on a grid each run).",
+        "comes from pydantic-core's serializer); the wireless channel (AirSpace) is checked on two real "
+        "wireless routers with the same stubbing. Trusted: CrossHair/z3, py2smt translator (validated against the real Link on a grid each run).",
         "technique": "symbolic execution of the real code (CrossHair+z3) + AST-to-SMT translation of admission/accounting (z3 FP64), counterexamples replayed",
     },
     "C05": {
